@@ -52,6 +52,8 @@ class OpenmlSource(Source[Iterable[Tuple[Union[MutableSequence, MutableMapping],
     def read(self) -> Iterable[Union[Dense,Sparse]]:
         """Read and parse the openml source."""
 
+        lines = None
+
         try:
 
             # we only allow three paralellel request, an attempt at being "considerate" to openml
@@ -121,6 +123,8 @@ class OpenmlSource(Source[Iterable[Tuple[Union[MutableSequence, MutableMapping],
 
         except Exception:
             #if something unexpected went wrong clear the cache just in case it was corrupted somehow
+            #(we stop reading the arff entry first, a cacher refuses to remove an entry that is being read)
+            if lines is not None: lines.close()
             self._clear_cache()
             raise
 
